@@ -44,7 +44,7 @@ ASSUMPTIONS = [
     "inputs are well-formed trees (id == position, root 0), any numbering",
     "order of the returned branches / paths / tips / furcations is unspecified",
 ]
-REQUIRED = ["trees_of_tens_of_thousands_of_nodes", "branch_tree_from_data_frame", "decompositions_from_inside_a_traversal", "branches_checked", "paths_checked", "tips_checked", "furcations_checked",
+REQUIRED = ["trees_of_tens_of_thousands_of_nodes", "decompositions_asked_again_after_the_lists_were_edited", "branch_tree_from_data_frame", "decompositions_from_inside_a_traversal", "branches_checked", "paths_checked", "tips_checked", "furcations_checked",
             "node_predicates_checked", "node_branch_checked", "branch_tree_checked",
             "branch_tree_memory_probed", "longest_path_checked", "root_one_child_trees",
             "derived_trees_checked", "negative_position_handles", "relinked_through_callers_array",
@@ -239,6 +239,24 @@ def _check(ctx, case, tree, spec):
     if sorted(gf) != sorted(fur):
         return ctx.violation("furcations-wrong", f"get_furcations = {sorted(gf)[:8]}, nodes with "
                                                  f">= 2 children = {sorted(fur)[:8]}", case)
+    # the lists handed out belong to the caller: emptied / reversed in place, then asked for again
+    brs.clear()
+    ps.reverse()
+    del ps[: len(ps) // 2]
+    tl_, fl_ = tree.get_tips(), tree.get_furcations()
+    if isinstance(tl_, list):
+        tl_.clear()
+    if isinstance(fl_, list):
+        fl_.clear()
+    ctx.count("decompositions_asked_again_after_the_lists_were_edited")
+    if {_ids(b) for b in tree.get_branches()} != exp_br or \
+            {_ids(p) for p in tree.get_paths()} != exp_paths or \
+            sorted(int(x.id) for x in tree.get_tips()) != sorted(tips) or \
+            sorted(int(x.id) for x in tree.get_furcations()) != sorted(fur):
+        return ctx.violation("handed-out-list-is-internal",
+                             "after the caller emptied / reversed the lists get_branches / get_paths "
+                             "/ get_tips / get_furcations had returned, the same tree reports other "
+                             "decompositions", case)
     if case.get("big"):
         return  # (tens of thousands of nodes: the decompositions above only)
     # --- per node predicates and Node.branch
